@@ -142,8 +142,17 @@ def multi_file(r):
         if r.random() < 0.3:
             lines.append("v_%s :: %d" % (nm, i + 10))
         files["/%s.sy" % nm] = "\n".join(lines) + "\n"
+        # modules that define nothing at all
+        if r.random() < 0.15:
+            files["/%s.sy" % nm] = r.choice(["", "\n", "// TODO\n", "   \n\n", "// a\n// b\n"])
     main = ["use %s" % nm for nm in names if r.random() < 0.8]
-    main.append("start :: fn do\n  x := %s\nend" % r.choice(["1"] + ["%s.v_%s" % (nm, nm) for nm in names]))
+    body = r.choice(["x := 1"] + ["x := %s.v_%s" % (nm, nm) for nm in names]
+                    + ["%s.missing_%d" % (nm, i) for i, nm in enumerate(names)]
+                    + ["x := %s.missing()" % nm for nm in names]
+                    + ["x: %s.Missing = 1" % nm for nm in names]
+                    + ["x := %s.Missing { a: 1 }" % nm for nm in names]
+                    + ["x := %s.%s.v_%s" % (a, b, b) for a in names for b in names if a != b][:4])
+    main.append("start :: fn do\n  %s\nend" % body)
     files["/main.sy"] = "\n".join(main) + "\n"
     return files
 
